@@ -273,6 +273,8 @@ def run_configs(ctx):
         yield 'SumGrader(deleted constants)', M.SumGrader, {'answers': {'lower': '1', 'upper': '3', 'summand': 'n', 'summation_variable': 'n'},
                                                             'user_constants': {'pi': None, 'infty': None, 'c': 2.0}}, [['1', '3', 'n', 'n'], ['1', '3', 'pi', 'n']]
         yield 'MatrixGrader(deleted constants)', M.MatrixGrader, {'answers': 'x', 'variables': ['x'], 'user_constants': {'e': None, 'i': None}}, ['x', 'e']
+        yield 'NumericalGrader(infinities)', M.NumericalGrader, {'answers': 'infty', 'allow_inf': True}, ['infty', '-infty', '5', 'arccosh(0.5)']
+        yield 'IntervalGrader(infinite endpoint)', M.IntervalGrader, {'answers': '[0, infty)'}, ['[0, infty)', '[0, 5)', '(-infty, 0]']
         yield 'FormulaGrader(metric suffixes)', M.FormulaGrader, {'answers': '2k+x', 'variables': ['x'], 'metric_suffixes': True}, ['x+2000', '2k', '3%']
         yield 'SumGrader(metric suffixes)', M.SumGrader, {'answers': {'lower': '1', 'upper': '3', 'summand': 'n', 'summation_variable': 'n'},
                                                            'metric_suffixes': True}, [['1', '3', 'n', 'n'], ['1', '0.003k', 'n', 'n']]
